@@ -16,34 +16,47 @@ external-cancel instant; no bound on depth or time.
 -/
 namespace Aiorpcx.C11
 
-/-! ## The model's `__aexit__` is the code's `__aexit__` (generated decision table) -/
+/-! ## The model behaves as the code does (generated scenario table)
 
-def excOfCode : Nat → Res
-  | 0 => none | 1 => some .cancelled | 2 => some .taskTimeout | 3 => some .tce
-  | 4 => some .uncaught | _ => some .other
+`Aiorpcx.Facts.C11.scenarios` is regenerated on every run by executing the real
+`timeout_after` / `timeout_at` / `ignore_after` / `ignore_at` blocks (public API only) on a grid
+of small programs: every (exception kind leaving the body x ignore x which deadline fired) in two
+stack shapes, block entry below / at / above the armed deadline, marker reset on entry, relative
+forms with zero and past deadlines.  The theorem evaluates the model on the same programs. -/
 
 def codeOfRes : Res → Nat
   | none => 0 | some .cancelled => 1 | some .taskTimeout => 2 | some .tce => 3
   | some .uncaught => 4 | some .other => 5
 
-def markerOfCode : Nat → Option Int
-  | 0 => none | 1 => some 20 | 2 => some 10 | _ => some 5
+/-- the enclosing `timeout_at` blocks of a scenario, wrapped around its program -/
+def wrapPrefix (pre : List Int) (p : Prog) : Prog :=
+  pre.foldr (fun d q => .block false false d q) p
 
-/-- the model's `aexit` evaluated on the same stub state the facts extractor uses -/
-def modelRow (e : Nat) (ig : Bool) (m : Nat) : Nat × Bool × Nat × Nat × Bool × Bool :=
-  let s : TS := { now := 0, deadlines := [10, 20], armed := some 10, marker := markerOfCode m }
-  let r := aexit true ig 20 (excOfCode e) s
-  (e, ig, m, codeOfRes r.1, r.2.1, r.2.2.deadlines == [10] && r.2.2.armed == some 10)
+/-- what the model predicts for one scenario, in the format of the generated table -/
+def modelObs (pre : List Int) (p : Prog) :
+    Nat × Int × List (Int × Nat × Bool × Int) × List Int × Bool :=
+  let s0 := pre.foldl enter ({ now := 0 } : TS)
+  let r := run true p s0
+  (codeOfRes r.1, r.2.1.now,
+   r.2.2.map (fun e => match e with
+     | .exit d res x t => (d, codeOfRes res, x, t)
+     | .gexit res left t => (t, 100 + codeOfRes res, left != 0, t)),
+   r.2.1.armed.toList,
+   (run true (wrapPrefix pre p) { now := 0 }).2.1.armed.isSome)
 
-def modelTable : List (Nat × Bool × Nat × Nat × Bool × Bool) :=
-  (List.range 6).flatMap fun e => [false, true].flatMap fun ig =>
-    (List.range 4).map fun m => modelRow e ig m
+/-- **tie to the source**: on every scenario of the grid the real blocks did exactly what the
+model says - result, time, every block's exit (exception kind, `expired`, time), the timers still
+pending afterwards, nothing left at the end.  Regenerated from /repo on every run; a behavioural
+change of `__aenter__` / `__aexit__` / the deadline bookkeeping changes a row and this theorem no
+longer checks, a rewrite that preserves behaviour cannot. -/
+theorem facts_scenarios :
+    Facts.C11.scenarios.all (fun row => modelObs row.1 row.2.1 == row.2.2) = true := by
+  decide +kernel
 
-/-- **tie to the source**: the decision table obtained by running the real
-`TimeoutAfter.__aexit__` on every (exception kind × ignore × marker kind) equals the model's.
-Regenerated from /repo on every run; on the pinned tree the rows (Cancelled|TCE, stale marker)
-differ (F13) and this theorem no longer checks. -/
-theorem facts_aexit_table : Facts.C11.aexitTable = modelTable := by decide
+/-- the table is not trivial: it has rows, and rows in which a deadline fired -/
+example : Facts.C11.scenarios.length ≥ 100 ∧
+    (Facts.C11.scenarios.filter (fun row => row.2.2.2.2.1.any (fun e => e.2.2.1))).length ≥ 40 := by
+  decide +kernel
 
 /-- the exception hierarchy the model's `isCancelFamily` relies on -/
 theorem facts_hierarchy : Facts.C11.tceIsCancelled = true ∧
@@ -72,6 +85,7 @@ theorem interrupted_at_deadline (s : TS) (d : Nat) (a : Int) (ha : s.armed = som
   | none => rw [ha]; simp [hlong, timerFire, hcc]
   | some c => have := hc c hcc; rw [ha]; simp [this, hlong, timerFire, hcc]
 
+set_option linter.unusedSimpArgs false in
 /-- ... and a sleep that ends before the armed deadline (and before any cancel) is untouched. -/
 theorem early_sleep_unaffected (s : TS) (d : Nat)
     (ha : ∀ a, s.armed = some a → s.now + d < clampT s.now a)
@@ -137,6 +151,12 @@ theorem other_results_untouched (fixed ig : Bool) (d : Int) (s : TS) (r : Res)
     (hf : isCancelFamily r = false) :
     (aexit fixed ig d r s).1 = r ∧ (aexit fixed ig d r s).2.1 = false := by
   simp [aexit, unset, hf]
+
+/-- the relative forms (`timeout_after`, `ignore_after`) are the absolute forms
+(`timeout_at`, `ignore_at`) with the deadline counted from the clock at entry -/
+theorem absolute_relative_agree (fixed ig : Bool) (t : Int) (body : Prog) (s : TS) :
+    run fixed (.block ig true t body) s = run fixed (.block ig false (s.now + t) body) s := by
+  simp [run]
 
 /-! ## Worked instances (non-vacuity; also regression anchors) -/
 
